@@ -224,3 +224,316 @@ Proof.
   change (x64 :: (x65 :: x66 :: x3d :: d)) with (s_def ++ d).
   rewrite Hc, Hp. reflexivity.
 Qed.
+
+(* ---------- the pieces of a marshalled tag, one at a time ---------- *)
+Lemma run_app gk a b u : run gk (a ++ b) u = run gk b (run gk a u).
+Proof. unfold run. apply fold_left_app. Qed.
+
+Definition B := Build_ufield.
+
+Lemma piece_kind k u :
+  1 <= k <= 18 ->
+  run (gokind_of k) (opt_seg (kind_keyword k)) u = set_kind u (if k =? 14 then 5 else k).
+Proof.
+  intros Hk.
+  assert (C : k = 1 \/ k = 2 \/ k = 3 \/ k = 4 \/ k = 5 \/ k = 6 \/ k = 7 \/ k = 8 \/ k = 9 \/ k = 10 \/ k = 11 \/
+              k = 12 \/ k = 13 \/ k = 14 \/ k = 15 \/ k = 16 \/ k = 17 \/ k = 18) by lia.
+  repeat (destruct C as [C|C]; [subst k; reflexivity|]). subst k. reflexivity.
+Qed.
+
+Lemma piece_number gk z n0 z0 c k j p p3 d :
+  (0 <= z < 2147483648)%Z ->
+  run gk [itoa z] (B n0 z0 c k j p p3 d) = B n0 z c k j p p3 d.
+Proof. intros Hz. unfold run. cbn [fold_left]. now rewrite classify_number. Qed.
+
+Lemma piece_card gk cd n z c k j p p3 d :
+  1 <= cd <= 3 ->
+  run gk (opt_seg (card_keyword cd)) (B n z c k j p p3 d) = B n z cd k j p p3 d.
+Proof.
+  intros H. assert (C : cd = 1 \/ cd = 2 \/ cd = 3) by lia.
+  destruct C as [C|[C|C]]; subst cd; reflexivity.
+Qed.
+
+Lemma piece_packed gk b n z c k j p p3 d :
+  run gk (if_seg b s_packed) (B n z c k j p p3 d) = B n z c k j (p || b) p3 d.
+Proof. destruct b; cbn; [now rewrite orb_true_r|now rewrite orb_false_r]. Qed.
+
+Lemma piece_name gk nm n z c k j p p3 d :
+  run gk [s_name ++ nm] (B n z c k j p p3 d) = B nm z c k j p p3 d.
+Proof. unfold run. cbn [fold_left]. now rewrite classify_name. Qed.
+
+Lemma piece_json gk e js n z c k j p p3 d :
+  run gk (if_seg e (s_json ++ js)) (B n z c k j p p3 d)
+  = B n z c k (if e && negb (str_eqb js (camel (basename n))) then Some js else j) p p3 d.
+Proof.
+  destruct e; [|reflexivity].
+  unfold run. cbn [if_seg fold_left]. rewrite classify_json. cbn [apply_seg u_name B].
+  destruct (str_eqb js (camel (basename n))); reflexivity.
+Qed.
+
+Lemma piece_proto3 gk b n z c k j p p3 d :
+  run gk (if_seg b s_proto3) (B n z c k j p p3 d) = B n z c k j p (p3 || b) d.
+Proof. destruct b; cbn; [now rewrite orb_true_r|now rewrite orb_false_r]. Qed.
+
+Lemma piece_enum gk e en n z c k j p p3 d :
+  run gk (if_seg e (s_enum ++ en)) (B n z c k j p p3 d) = B n z c (if e then 14 else k) j p p3 d.
+Proof. destruct e; reflexivity. Qed.
+
+Lemma piece_oneof gk b u : run gk (if_seg b s_oneof) u = u.
+Proof. destruct b; reflexivity. Qed.
+
+(* ---------- well-formedness of the segments ---------- *)
+Lemma seg_ok_closed s :
+  forallb (fun b => negb (beqb b comma)) s = true -> s <> [] -> has_prefix s_def s = false -> seg_ok s.
+Proof. intros. split; [assumption|split; assumption]. Qed.
+
+Lemma seg_ok_kind k : Forall seg_ok (opt_seg (kind_keyword k)).
+Proof.
+  unfold kind_keyword.
+  destruct k as [|p]; [constructor|].
+  do 5 (try destruct p as [p|p|]); cbn [opt_seg]; repeat constructor; try discriminate.
+Qed.
+
+Lemma seg_ok_card c : Forall seg_ok (opt_seg (card_keyword c)).
+Proof.
+  unfold card_keyword.
+  destruct c as [|p]; [constructor|].
+  do 2 (try destruct p as [p|p|]); cbn [opt_seg]; repeat constructor; try discriminate.
+Qed.
+
+Lemma seg_ok_number z : (0 <= z < 2147483648)%Z -> seg_ok (itoa z).
+Proof.
+  intros Hz. unfold itoa.
+  assert (E : itoa_n (Z.to_N z) = match z with Zneg p => x2d :: itoa_n (N.pos p) | _ => itoa_n (Z.to_N z) end).
+  { destruct z; try reflexivity. lia. }
+  rewrite <- E. clear E.
+  assert (Hn : Z.to_N z < 2^32) by (change (2^32) with 4294967296; lia).
+  destruct (itoa_n_spec _ Hn) as (Hd & Hne & _).
+  split; [now apply digits_no_comma|]. split; [exact Hne|].
+  unfold s_def. apply digits_first; [exact Hd|exact Hne|reflexivity].
+Qed.
+
+Lemma seg_ok_if b s : seg_ok s -> Forall seg_ok (if_seg b s).
+Proof. destruct b; cbn [if_seg]; [constructor; [assumption|constructor]|constructor]. Qed.
+
+Lemma seg_ok_prefixed (p s : str) :
+  forallb (fun b => negb (beqb b comma)) p = true -> no_comma s ->
+  match p with b :: _ => beqb x64 b = false | [] => False end ->
+  seg_ok (p ++ s).
+Proof.
+  intros Hp Hs Hb. split; [now apply no_comma_app|]. split.
+  - destruct p; [contradiction|discriminate].
+  - destruct p as [|b p]; [contradiction|]. unfold s_def. cbn [app has_prefix]. now rewrite Hb.
+Qed.
+
+Lemma join_length segs : Forall (fun s : str => s <> []) segs -> (length segs <= length (join_comma segs))%nat.
+Proof.
+  induction 1 as [|s r Hs _ IH]; [reflexivity|].
+  destruct r as [|s2 r].
+  - cbn [join_comma length]. destruct s; [congruence|cbn [length]; lia].
+  - rewrite join_comma_cons by discriminate. rewrite app_length. cbn [length] in *. lia.
+Qed.
+
+(* ---------- domain and round trip ---------- *)
+Definition no_dot (s : str) : Prop := forallb (fun b => negb (beqb b dot)) s = true.
+
+Lemma basename_aux_no_dot s acc : no_dot s -> basename_aux s acc = acc ++ s.
+Proof.
+  unfold no_dot. revert acc. induction s as [|b s IH]; intros acc H.
+  - cbn. now rewrite app_nil_r.
+  - cbn [forallb] in H. apply andb_prop in H. destruct H as [H1 H2]. apply negb_true_iff in H1.
+    cbn [basename_aux]. rewrite H1. rewrite IH by exact H2. now rewrite <- app_assoc.
+Qed.
+Lemma basename_no_dot s : no_dot s -> basename s = s.
+Proof. intros H. unfold basename. now rewrite basename_aux_no_dot. Qed.
+
+Definition json_emitted (f : tfield) : bool :=
+  negb (str_eqb (f_json f) []) && negb (str_eqb (f_json f) (emitted_name f)) && negb (f_ext f).
+
+Record tag_domain (f : tfield) : Prop := {
+  d_kind : 1 <= f_kind f <= 18;
+  d_enum : f_kind f = 14 -> f_enum f <> [];
+  d_num : (0 <= f_number f < 2147483648)%Z;
+  d_card : 1 <= f_card f <= 3;
+  d_name : no_comma (f_name f) /\ no_dot (f_name f);
+  d_group : f_kind f = 10 -> no_comma (f_msgname f) /\ no_dot (f_msgname f) /\ to_lower (f_msgname f) = f_name f;
+  d_json_nc : no_comma (f_json f);
+  d_enum_nc : no_comma (f_enum f);
+  d_ext : f_ext f = false;
+  (* the JSON name is the default one, or a custom one that Marshal writes and Unmarshal keeps *)
+  d_json : f_json f = camel (f_name f) \/
+           (f_json f <> [] /\ f_json f <> emitted_name f /\ f_json f <> camel (basename (emitted_name f)));
+  d_packed : f_packed f = true -> f_card f = 3 /\ packable (f_kind f) = true;
+  (* FJ2: a proto3 repeated packable field that is NOT packed does not survive *)
+  d_proto3_packed : f_proto3 f = true -> f_card f = 3 -> packable (f_kind f) = true -> f_packed f = true
+}.
+
+Definition segs_nodef (f : tfield) : list str :=
+  opt_seg (kind_keyword (f_kind f))
+  ++ [itoa (f_number f)]
+  ++ opt_seg (card_keyword (f_card f))
+  ++ if_seg (f_packed f) s_packed
+  ++ [s_name ++ emitted_name f]
+  ++ if_seg (json_emitted f) (s_json ++ f_json f)
+  ++ if_seg (f_proto3 f && negb (f_ext f)) s_proto3
+  ++ if_seg ((f_kind f =? 14) && negb (str_eqb (f_enum f) [])) (s_enum ++ f_enum f)
+  ++ if_seg (f_oneof f) s_oneof.
+
+Lemma segments_split f :
+  segments f = segs_nodef f ++ match f_def f with Some d => [s_def ++ d] | None => [] end.
+Proof. unfold segments, segs_nodef, json_emitted. now rewrite <- !app_assoc. Qed.
+
+Lemma emitted_name_ok f : tag_domain f -> no_comma (emitted_name f) /\ no_dot (emitted_name f).
+Proof.
+  intros D. unfold emitted_name. destruct (f_kind f =? 10) eqn:E.
+  - apply N.eqb_eq in E. destruct (d_group f D E) as (H1 & H2 & _). now split.
+  - exact (d_name f D).
+Qed.
+
+Lemma segs_nodef_ok f : tag_domain f -> Forall seg_ok (segs_nodef f).
+Proof.
+  intros D. unfold segs_nodef.
+  apply Forall_app; split; [apply seg_ok_kind|].
+  apply Forall_app; split; [constructor; [|constructor]; apply seg_ok_number; exact (d_num f D)|].
+  apply Forall_app; split; [apply seg_ok_card|].
+  apply Forall_app; split; [apply seg_ok_if; apply seg_ok_closed; [reflexivity|discriminate|reflexivity]|].
+  apply Forall_app; split.
+  { constructor; [|constructor]. apply seg_ok_prefixed; [reflexivity| |reflexivity].
+    exact (proj1 (emitted_name_ok f D)). }
+  apply Forall_app; split.
+  { apply seg_ok_if. apply seg_ok_prefixed; [reflexivity| |reflexivity]. exact (d_json_nc f D). }
+  apply Forall_app; split; [apply seg_ok_if; apply seg_ok_closed; [reflexivity|discriminate|reflexivity]|].
+  apply Forall_app; split.
+  { apply seg_ok_if. apply seg_ok_prefixed; [reflexivity| |reflexivity]. exact (d_enum_nc f D). }
+  apply seg_ok_if. apply seg_ok_closed; [reflexivity|discriminate|reflexivity].
+Qed.
+
+(* the state after all segments but "def=" *)
+Definition after (f : tfield) : ufield :=
+  B (emitted_name f) (f_number f) (f_card f) (f_kind f)
+    (if json_emitted f && negb (str_eqb (f_json f) (camel (basename (emitted_name f)))) then Some (f_json f) else None)
+    (f_packed f) (f_proto3 f) None.
+
+Lemma run_segs_nodef f :
+  tag_domain f -> run (gokind_of (f_kind f)) (segs_nodef f) u_empty = after f.
+Proof.
+  intros D. unfold segs_nodef. rewrite !run_app.
+  rewrite piece_kind by exact (d_kind f D).
+  unfold u_empty, set_kind. cbn [u_name u_number u_card u_kind u_json u_packed u_proto3 u_def].
+  change (Build_ufield) with B.
+  rewrite piece_number by exact (d_num f D).
+  rewrite piece_card by exact (d_card f D).
+  rewrite piece_packed, piece_name, piece_json, piece_proto3, piece_enum, piece_oneof.
+  unfold after. rewrite (d_ext f D). cbn [negb orb]. rewrite andb_true_r.
+  f_equal.
+  destruct (f_kind f =? 14) eqn:E; cbn [andb].
+  - apply N.eqb_eq in E. pose proof (d_enum f D E) as Hne.
+    destruct (str_eqb (f_enum f) []) eqn:E2; [apply str_eqb_eq in E2; congruence|]. cbn [negb]. now symmetry.
+  - reflexivity.
+Qed.
+
+Theorem tag_unmarshal_marshal f :
+  tag_domain f ->
+  let u := unmarshal (gokind_of (f_kind f)) (marshal f) in
+  u_name u = f_name f /\ u_number u = f_number f /\ u_card u = f_card f /\ u_kind u = f_kind f /\
+  u_json_name u = f_json f /\ u_is_packed u = f_packed f /\ u_proto3 u = f_proto3 f /\ u_def u = f_def f.
+Proof.
+  intros D u.
+  assert (Hloop : unmarshal_loop (S (length (marshal f))) (gokind_of (f_kind f)) (marshal f) u_empty
+                  = match f_def f with Some d => set_def (after f) d | None => after f end).
+  { unfold marshal. rewrite segments_split.
+    pose proof (segs_nodef_ok f D) as Hok.
+    assert (Hne : Forall (fun s : str => s <> []) (segs_nodef f)).
+    { eapply Forall_impl; [|exact Hok]. now intros a (_ & H & _). }
+    destruct (f_def f) as [d|].
+    - rewrite loop_def; [now rewrite run_segs_nodef|exact Hok|].
+      assert (Hne' : Forall (fun s : str => s <> []) (segs_nodef f ++ [s_def ++ d])).
+      { apply Forall_app. split; [exact Hne|]. constructor; [discriminate|constructor]. }
+      apply join_length in Hne'. rewrite app_length in Hne'. cbn [length] in Hne'. lia.
+    - rewrite app_nil_r. rewrite loop_all; [now rewrite run_segs_nodef|exact Hok|].
+      apply join_length in Hne. lia. }
+  subst u. unfold unmarshal. rewrite Hloop. clear Hloop.
+  destruct (emitted_name_ok f D) as [Hen_nc Hen_nd].
+  destruct (d_name f D) as [Hn_nc Hn_nd].
+  (* the name after [finish] *)
+  assert (Hname : forall d0, u_name (finish (B (emitted_name f) (f_number f) (f_card f) (f_kind f)
+              (if json_emitted f && negb (str_eqb (f_json f) (camel (basename (emitted_name f)))) then Some (f_json f) else None)
+              (f_packed f) (f_proto3 f) d0)) = f_name f).
+  { intros d0. unfold finish, emitted_name. cbn [u_kind B].
+    destruct (f_kind f =? 10) eqn:E; cbn [u_name B]; [|reflexivity].
+    apply N.eqb_eq in E. now destruct (d_group f D E) as (_ & _ & H). }
+  assert (Hrest : forall d0, let v := finish (B (emitted_name f) (f_number f) (f_card f) (f_kind f)
+              (if json_emitted f && negb (str_eqb (f_json f) (camel (basename (emitted_name f)))) then Some (f_json f) else None)
+              (f_packed f) (f_proto3 f) d0) in
+            u_number v = f_number f /\ u_card v = f_card f /\ u_kind v = f_kind f /\
+            u_json_name v = f_json f /\ u_is_packed v = f_packed f /\ u_proto3 v = f_proto3 f /\ u_def v = d0).
+  { intros d0 v.
+    assert (Hv : u_number v = f_number f /\ u_card v = f_card f /\ u_kind v = f_kind f /\
+                 u_json v = (if json_emitted f && negb (str_eqb (f_json f) (camel (basename (emitted_name f)))) then Some (f_json f) else None) /\
+                 u_packed v = f_packed f /\ u_proto3 v = f_proto3 f /\ u_def v = d0).
+    { subst v. unfold finish. cbn [u_kind B]. destruct (f_kind f =? 10); cbn; repeat split; reflexivity. }
+    destruct Hv as (H1 & H2 & H3 & H4 & H5 & H6 & H7).
+    repeat split; try assumption.
+    - (* JSON name *)
+      unfold u_json_name. rewrite H4. rewrite (Hname d0 : u_name v = f_name f).
+      rewrite (basename_no_dot _ Hn_nd). rewrite (basename_no_dot _ Hen_nd).
+      destruct (d_json f D) as [Hdef|(Hc1 & Hc2 & Hc3)].
+      + destruct (json_emitted f && negb (str_eqb (f_json f) (camel (emitted_name f)))); [reflexivity|now symmetry].
+      + rewrite (basename_no_dot _ Hen_nd) in Hc3.
+        unfold json_emitted. rewrite (d_ext f D).
+        destruct (str_eqb (f_json f) []) eqn:E1; [apply str_eqb_eq in E1; congruence|].
+        destruct (str_eqb (f_json f) (emitted_name f)) eqn:E2; [apply str_eqb_eq in E2; congruence|].
+        destruct (str_eqb (f_json f) (camel (emitted_name f))) eqn:E3; [apply str_eqb_eq in E3; congruence|].
+        reflexivity.
+    - (* IsPacked *)
+      unfold u_is_packed, u_packed_feature. rewrite H2, H3, H5, H6.
+      destruct (f_packed f) eqn:Ep.
+      + destruct (d_packed f D Ep) as [Hc Hk]. rewrite Hc, Hk. reflexivity.
+      + destruct (f_card f =? 3) eqn:Ec; [|reflexivity].
+        destruct (packable (f_kind f)) eqn:Ek; [|reflexivity].
+        destruct (f_proto3 f) eqn:E3; [|reflexivity].
+        apply N.eqb_eq in Ec. pose proof (d_proto3_packed f D E3 Ec Ek). congruence. }
+  destruct (f_def f) as [d|].
+  - unfold set_def, after. cbn [u_name u_number u_card u_kind u_json u_packed u_proto3 B].
+    split; [apply Hname|]. apply (Hrest (Some d)).
+  - unfold after. split; [apply Hname|]. apply (Hrest None).
+Qed.
+
+(* ---------- the derived field of a struct-tag-only message ---------- *)
+Lemma camel_basename_derived parent s : no_dot s -> basename (parent ++ dot :: s) = s.
+Proof.
+  intros Hs. unfold basename.
+  assert (G : forall p acc, basename_aux (p ++ dot :: s) acc = s).
+  { induction p as [|b p IH]; intros acc.
+    - cbn [app basename_aux]. rewrite beqb_refl. now rewrite basename_aux_no_dot.
+    - cbn [app basename_aux]. destruct (beqb b dot); apply IH. }
+  apply G.
+Qed.
+
+Theorem derived_field_matches_tag parent sh f :
+  tag_domain f -> elem_kind sh = gokind_of (f_kind f) ->
+  let u := derive_field parent sh (marshal f) in
+  u_name u = parent ++ dot :: f_name f /\ u_number u = f_number f /\ u_card u = f_card f /\ u_kind u = f_kind f /\
+  u_json_name u = f_json f /\ u_is_packed u = f_packed f /\ u_proto3 u = f_proto3 f /\ u_def u = f_def f.
+Proof.
+  intros D Hk u.
+  pose proof (tag_unmarshal_marshal f D) as H. cbv zeta in H.
+  destruct H as (H1 & H2 & H3 & H4 & H5 & H6 & H7 & H8).
+  destruct (d_name f D) as [_ Hnd].
+  subst u. unfold derive_field. rewrite Hk.
+  set (v := unmarshal (gokind_of (f_kind f)) (marshal f)) in *.
+  cbn [u_name u_number u_card u_kind u_def u_proto3].
+  rewrite H1, (basename_no_dot _ Hnd).
+  repeat split; try assumption.
+  unfold u_json_name in *. cbn [u_json u_name].
+  rewrite camel_basename_derived by exact Hnd.
+  rewrite H1, (basename_no_dot _ Hnd) in H5. exact H5.
+Qed.
+
+(* FJ2: outside the domain, a proto3 repeated scalar that is not packed comes back packed *)
+Definition fj2_witness : tfield :=
+  {| f_kind := 5; f_number := 1%Z; f_card := 3; f_packed := false; f_name := [x66]; f_msgname := [];
+     f_json := [x66]; f_ext := false; f_proto3 := true; f_enum := []; f_oneof := false; f_def := None |}.
+Theorem proto3_unpacked_not_preserved :
+  u_is_packed (unmarshal (gokind_of (f_kind fj2_witness)) (marshal fj2_witness)) <> f_packed fj2_witness.
+Proof. vm_compute. discriminate. Qed.
